@@ -94,9 +94,26 @@ def analyse(func):
         ast_walk(ast,vo)
         params={q[0] for q in func.params}
         cands = {v for v in cands if v not in outside_r and v not in outside_w and v not in params}
+        # a variable that the loop body resets to a constant at its top level (`p = NULL;` after `free(p)`) has a known
+        # value at the start of every iteration: reading it after a one-armed assignment is the reset idiom, not a stale read
+        kids = body[1] if body and body[0]=='block' else [body]
+        for k_ in kids:
+            if k_ and k_[0]=='s':
+                e_=strip(k_[1])
+                if kind(e_)=='asg' and e_[1]=='=' and kind(strip(e_[2]))=='var' and is_int(strip(e_[3])):
+                    cands.discard(strip(e_[2])[1])
         if not cands: continue
         # must-def walk
         final=[]
+        partial=set()   # assigned in exactly one arm of an if/else of this iteration and not since
+        def ends(n):
+            """does control never fall out of the end of statement n?"""
+            if n is None: return False
+            if n[0] in ('continue','break','goto'): return True
+            if n[0]=='s' and kind(n[1])=='ret': return True
+            if n[0]=='block' and n[1]: return ends(n[1][-1])
+            if n[0]=='if' and n[3] is not None: return ends(n[2]) and ends(n[3])
+            return False
         def walk_stmt(n, must, pend):
             k=n[0]
             if k=='block':
@@ -105,7 +122,10 @@ def analyse(func):
             if k=='s':
                 r,w,cw=reads_writes(n[1])
                 for v in r:
-                    if v in cands and v not in must: pend.append((v,n))
+                    if v in cands and v not in must:
+                        if v in partial: final.append((v,n))
+                        else: pend.append((v,n))
+                partial.difference_update(w)
                 return must|w
             if k=='if':
                 r,w,cw=reads_writes(n[1])
@@ -119,6 +139,11 @@ def analyse(func):
                     (final if v in (m2-m0) else pend).append((v,nn))
                 for v,nn in f2:
                     (final if v in (m1-m0) else pend).append((v,nn))
+                e1, e2 = ends(n[2]), ends(n[3])
+                if e1 and not e2: return m2
+                if e2 and not e1: return m1
+                if n[3] is not None and not e1 and not e2:
+                    partial.update(((m1|m2)-(m1&m2)-m0) & cands)
                 return m1&m2
             if k=='for':
                 for part in n[1:3]:
